@@ -536,4 +536,12 @@ func init() {
 		Variant{Name: "benign: Skip after a search-attribute container was handled", Property: "C14", File: refl, Benign: true,
 			Old: "\t\t\t// No need to descend into this type further.\n\t\t\treturn visit.Continue, nil\n", New: "\t\t\t// No need to descend into this type further.\n\t\t\treturn visit.Skip, nil\n"},
 	)
+	addVariants(
+		Variant{Name: "benign: session id formatted with strconv", Property: "C10", File: mmm, Benign: true,
+			Old: "\tnewId := fmt.Sprintf(\"%d\", m.muxIdSequencer)\n", New: "\tnewId := strconv.FormatUint(m.muxIdSequencer, 10)\n"},
+		Variant{Name: "benign: LCM case logs between the metadata rewrites", Property: "C07", File: ast, Benign: true,
+			Old: "\t\ttargetMetadata.Set(history.MetadataKeyClientShardID, strconv.Itoa(int(newTargetShardID.ShardID)))\n", New: "\t\ttargetMetadata.Set(history.MetadataKeyClientShardID, strconv.Itoa(int(newTargetShardID.ShardID)))\n\t\tif newTargetShardID.ShardID > lcmParameters.TargetShardCount {\n\t\t\tlogger.Debug(\"initiator shard id above the serving cluster's count\")\n\t\t}\n"},
+		Variant{Name: "benign: dialer releases the lock through a deferred call in a helper closure", Property: "C11", File: mcc, Benign: true,
+			Old: "\t\tmcc.connMapLock.RLock()\n\t\tconnFn, exists := mcc.connMap[addr]\n\t\tmcc.connMapLock.RUnlock()\n", New: "\t\tmcc.connMapLock.RLock()\n\t\tconnFn, exists := mcc.connMap[addr]\n\t\tmcc.connMapLock.RUnlock()\n\t\t_ = ctx\n"},
+	)
 }
